@@ -144,6 +144,7 @@ class Model {
   void route_matches(int sender, const wire::Msg &m, int addressed, bool requested, bool policy_lenient = false);
   void driver(int c, const wire::Msg &m);
   void become_monitor(int c, const wire::Msg &m);
+  void doom_rules_naming(int c);
   void reply_ok(int c, const wire::Msg &call, std::vector<wire::Value> body, bool name_set = false);
   void reply_err(int c, const wire::Msg &call, const std::string &name, std::vector<std::string> any_of = {});
   void name_owner_changed(const std::string &name, const std::string &old_o, const std::string &new_o);
